@@ -188,17 +188,19 @@ def run(check, an: Analysis):
                        where_fn(push), 'items join their key\'s deque at the right end')
     check_waiting_fifo(check, an)
     awake_all = an.method(NOTIFICATION, '__awake_all__')
-    loops = [n for n in ast.walk(awake_all.node) if isinstance(n, ast.For)]
-    source = loops[0].iter if len(loops) == 1 else None
-    if isinstance(source, ast.Call) and ast.unparse(source.func) == 'reversed' and \
-            len(source.args) == 1:
-        # any fixed traversal of the list is deterministic; which waiter goes first is not
-        # part of any property statement
-        source = source.args[0]
-    ok = isinstance(source, ast.Name) and any(
-        v is not None and ast.unparse(v) in ('self._waiting.copy()', 'list(self._waiting)',
-                                             'self._waiting[:]')
-        for v in rules.local_values(awake_all, source.id))
+    walked = set()
+    for path in an.paths(an.callee(NOTIFICATION, '__awake_all__')):
+        for index, event in enumerate(path.events):
+            if event.kind in ('iter-next', 'iter-end') and event.depth == 0:
+                source = rules.value_expr(path, index, event.node.iter)
+                if isinstance(source, ast.Call) and ast.unparse(source.func) == 'reversed' \
+                        and len(source.args) == 1:
+                    # any fixed traversal of the list is deterministic; which waiter goes
+                    # first is not part of any property statement
+                    source = source.args[0]
+                walked.add(rules.normalise_state_aliases(ast.unparse(source)))
+    ok = bool(walked) and walked <= {'self._waiting.copy()', 'list(self._waiting)',
+                                     'self._waiting[:]', 'tuple(self._waiting)'}
     check.instance('F', '__awake_all__:list-order', ok, where_fn(awake_all),
                    'all waiters are scheduled by a fixed traversal of a copy of the '
                    '(insertion ordered) waiter list')
@@ -325,11 +327,23 @@ def run(check, an: Analysis):
     check.stats.update(an.stats())
 
 
+_HARMLESS_CALLS = ('len', 'repr', 'str', 'type', 'isinstance', 'bool', 'id', 'format')
+
+
 def _only_raises(stmt) -> bool:
     if isinstance(stmt, ast.Raise):
         return True
     if isinstance(stmt, ast.If):
         return all(_only_raises(s) for s in stmt.body + stmt.orelse)
+    if isinstance(stmt, (ast.Assign, ast.AnnAssign)) and stmt.value is not None:
+        # a temporary for the message: a local name bound to an effect free expression
+        targets = stmt.targets if isinstance(stmt, ast.Assign) else [stmt.target]
+        names = [e for t in targets for e in (t.elts if isinstance(t, ast.Tuple) else [t])]
+        return all(isinstance(n, ast.Name) for n in names) and all(
+            not isinstance(n, (ast.Await, ast.Yield, ast.YieldFrom, ast.NamedExpr, ast.Lambda))
+            and (not isinstance(n, ast.Call) or (isinstance(n.func, ast.Name)
+                                                 and n.func.id in _HARMLESS_CALLS))
+            for n in ast.walk(stmt.value))
     return False
 
 
@@ -485,6 +499,13 @@ def _selected(body, case: str):
                     isinstance(e, ast.Constant) and isinstance(e.value, str)
                     for e in right.elts):
                 inside = case != 'other' and case in [e.value for e in right.elts]
+                return inside if isinstance(op, ast.In) else not inside
+            table = expand(right) if isinstance(op, (ast.In, ast.NotIn)) else None
+            if isinstance(table, ast.Dict) and all(
+                    isinstance(k, ast.Constant) and isinstance(k.value, str)
+                    for k in table.keys):
+                # membership in a module level table of the known settings
+                inside = case != 'other' and case in [k.value for k in table.keys]
                 return inside if isinstance(op, ast.In) else not inside
         return None
 
